@@ -65,6 +65,8 @@ def verify_function(c, variant=None, vname=''):
                 return PathResult('vacuous')
             st.writes, st.memwrites = [], []
             st.ghost['allocated'] = []
+            if hasattr(c, 'gen_ghost'):
+                st.ghost['self_gen'] = dict(c.gen_ghost(ip, a))
             old = st.snapshot()
             ip.old = old
             ip.args = a
